@@ -82,10 +82,35 @@ class HeaderInterp(g4.Interp):
     def __init__(self, fb, header_rec=None):
         super().__init__(fb)
         self.header_rec = header_rec
+        self.header_ptrs = set()  # locals that hold getHeader()
+
+    def _is_get_header(self, x):
+        x = strip_all_casts(x) if isinstance(x, dict) else {}
+        return x.get("k") == "call" and (x.get("callee") or {}).get("nm") == "getHeader" and not x.get("args") and \
+            ((x.get("t") or {}).get("prec") == self.header_rec)
+
+    def block(self, s, env, depth=0):
+        # `const auto header = getHeader();` — the local is another name for the header view
+        if s.get("k") == "decl" and self.header_rec:
+            rest = []
+            for v in s.get("vars", []):
+                if (v.get("t") or {}).get("k") == "ptr" and self._is_get_header(v.get("init")):
+                    self.header_ptrs.add(v["decl"])
+                else:
+                    rest.append(v)
+            if len(rest) != len(s.get("vars", [])):
+                if rest:
+                    super().block(dict(s, vars=rest), env, depth)
+                return
+        return super().block(s, env, depth)
 
     def call(self, n, env, depth):
         if "obj" in n:
             o = strip(n["obj"])
+            if strip_all_casts(o).get("k") == "ref" and strip_all_casts(o).get("decl") in self.header_ptrs:
+                n2 = dict(n)
+                n2["obj"] = {"k": "this", "id": -1}
+                return super().call(n2, env, depth)
             if o.get("k") == "call" and (o.get("callee") or {}).get("nm") == "getHeader" and self.header_rec:
                 rt = (o.get("t") or {})
                 if rt.get("prec") != self.header_rec:
@@ -188,6 +213,16 @@ def check_field(out, interp, cls, row, getter, setter, nbytes, pos, fb):
                 out.append(Ob("position", cls, "%s::get%s[%s]" % (cls, stem, name), gloc, got == (vals[name] & ((1 << ret.w) - 1)),
                               "wire value %d in bits %d:%d reads back as %s::%s (%s)" % (wire, hi, lo, row["enum"], name,
                                                                                        "ok" if got == vals[name] else "got %r, want %d" % (got, vals[name]))))
+            if row.get("open"):
+                # an open enumeration: the field is a plain number on the wire of which the API names a few values; every other value is
+                # handed through unchanged (a generic message of type 0x04 is reported as type 0x04, not as `undefined`)
+                exp = [S(M[j]) if j < w else C0 for j in range(ret.w)]
+                okid = list(ret.bits) == exp
+                jbad = next((i for i in range(ret.w) if ret.bits[i] != exp[i]), 0)
+                out.append(Ob("position", cls, "%s::get%s[open]" % (cls, stem), gloc, okid,
+                              "every wire value, named or not, is handed out unchanged" if okid else
+                              "get%s does not hand out every wire value unchanged: result bit %d is %s — values the API does not name are reported as "
+                              "something else" % (stem, jbad, term_str(ret.bits[jbad])[:160])))
             missing = set(vals) - set(row["values"])
             if missing:
                 raise Broken("enum %s has enumerators without a spec row: %s" % (row["enum"], sorted(missing)))
@@ -240,6 +275,15 @@ def check_field(out, interp, cls, row, getter, setter, nbytes, pos, fb):
     elif kind == "enum":
         en = fb.enum(row["enum"])
         vals = {e["name"]: e["value"] for e in en["enumerators"]}
+        if row.get("open") and getter is not None:
+            # open enumeration: whatever number is set is stored and read back, named or not
+            post, _ = interp.run(setter, nbytes, {p["decl"]: _param_bv(p, w_inrange=w)})
+            _, ret = interp.run(getter, nbytes, {}, storage=post)
+            exp = [P(pname, j) if j < w else C0 for j in range(ret.w)]
+            ok = list(ret.bits) == exp and all(post[M[j]] == P(pname, j) for j in range(w))
+            out.append(Ob("readback", cls, "%s::%s[open]" % (cls, stem), sloc, ok,
+                          "get%s(set%s(v)) == v for every value of the %d-bit field, named or not" % (stem, stem, w) if ok else
+                          "get%s after set%s(v) is not v for every value of the %d-bit field: values the API does not name do not survive" % (stem, stem, w)))
         for name, wire in sorted(row["values"].items()):
             post, _ = interp.run(setter, nbytes, {p["decl"]: _param_bv(p, value=vals[name])})
             frame(post, "(%s)" % name, sloc)
@@ -320,8 +364,15 @@ def record_covered_bytes(fb, rec, base=0, out=None):
     return out
 
 
-def analyse(fb, spec):
+def analyse(fb, spec, scope=None):
     """Returns (list of Ob, stats dict)."""
+    # scope(cls, stem) -> bool: the accessors the calling property relies on.  An accessor outside the G4 vocabulary is analysis-broken
+    # for the properties that rely on it (C11/C12: all of them) and of no concern to the others.
+    deferred = []
+
+    def outside(cls, stem, e, what="accessor"):
+        if scope is None or scope(cls, stem):
+            deferred.append("%s %s::%s is outside the G4 vocabulary: %s" % (what, cls, stem, e))
     out = []
     stats = {"classes": 0, "accessor_pairs": 0, "flag_enumerators": 0}
     for crow in spec["classes"]:
@@ -366,7 +417,7 @@ def analyse(fb, spec):
             try:
                 check_field(out, interp, cls, row, getter, setter, nbytes, wire_pos(row["offset"], row["bytes"]), fb)
             except Unsupported as e:
-                raise Broken("accessor %s::%s is outside the G4 vocabulary: %s" % (cls, row["stem"], e))
+                outside(cls, row["stem"], e)
         for fr in crow.get("flags", []):
             getter = find_method(fb, cls, fr["getter"], 1)
             setter = find_method(fb, cls, fr["setter"], 2)
@@ -376,7 +427,7 @@ def analyse(fb, spec):
             try:
                 check_flags(out, interp, cls, fr, getter, setter, nbytes, wire_pos(fr["offset"], fr["bytes"]), fb)
             except Unsupported as e:
-                raise Broken("flag accessor of %s is outside the G4 vocabulary: %s" % (cls, e))
+                outside(cls, fr["getter"], e, "flag accessor")
         # reserved bytes default to zero
         any_init = any(x[2] for b in cov.values() for x in b)
         for rr in crow.get("reserved", []):
@@ -407,7 +458,7 @@ def analyse(fb, spec):
             try:
                 check_field(out, interp, cls, dict(row, bytes=r["size"]), getter, setter, r["size"], lambda v: v, fb)
             except Unsupported as e:
-                raise Broken("accessor %s::%s is outside the G4 vocabulary: %s" % (cls, row["stem"], e))
+                outside(cls, row["stem"], e)
     # ---- plain member classes (regions discovered, pairwise disjoint)
     for prow in spec.get("plain", []):
         cls = prow["class"]
@@ -445,7 +496,7 @@ def analyse(fb, spec):
                 out.append(Ob("readback", cls, "%s::get%s" % (cls, stem), getter.loc, okraw,
                               "get%s returns exactly the member set%s writes" % (stem, stem)))
             except Unsupported as e:
-                raise Broken("accessor %s::%s is outside the G4 vocabulary: %s" % (cls, stem, e))
+                outside(cls, stem, e)
         stems = sorted(regions)
         for i, a in enumerate(stems):
             for b in stems[i + 1:]:
@@ -462,7 +513,7 @@ def analyse(fb, spec):
             try:
                 check_flags(out, interp, cls, fr, getter, setter, nbytes, lambda v, reg=reg: reg[v], fb)
             except Unsupported as e:
-                raise Broken("flag accessor of %s is outside the G4 vocabulary: %s" % (cls, e))
+                outside(cls, fr["getter"], e, "flag accessor")
     # ---- data offsets
     for cls, off in sorted(spec.get("data_offsets", {}).items()):
         rec = header_view_record(fb, cls)
@@ -543,4 +594,12 @@ def analyse(fb, spec):
                           "result byte k is argument byte %d-k, for all values" % (nb - 1) if ok else "swapEndian(uint%d_t) is not byte reversal: %r" % (w, env.ret)))
         except Unsupported as e:
             raise Broken("swapEndian overload outside the G4 vocabulary: %s" % e)
+    stats["unsupported"] = deferred
     return out, stats
+
+
+def require_supported(stats):
+    """called by a rule module after it has registered the obligations it imports: an accessor it relies on that the engine could not
+    interpret makes the run analysis-broken (violations already registered are still reported by the driver)"""
+    if stats.get("unsupported"):
+        raise Broken(stats["unsupported"][0])
